@@ -71,6 +71,9 @@ pub fn eval_rt(c: &RtCase) -> CaseResult {
     if c.inputs.iter().any(|i| i.windows(3).any(|w| w == [0xff, 0xff, 0xff])) {
         r.classes.push("ff_run");
     }
+    if total >= (1 << 19) {
+        r.classes.push("total>=512KiB");
+    }
     if c.inputs.windows(2).any(|w| w[0] == w[1] && !w[0].is_empty()) {
         r.classes.push("repeated_input(zero_delta)");
     }
@@ -147,6 +150,45 @@ fn rt_big_strategy() -> BoxedStrategy<RtCase> {
                     .collect()
             };
             RtCase { reference: fill(rl, rs, 2), inputs: specs.into_iter().map(|(n, s, m)| fill(n, s, m)).collect() }
+        })
+        .boxed()
+}
+
+/// chains of same-length inputs in which every input is its predecessor XOR a constant byte (the first one:
+/// the reference XOR that byte): the delta layer then consists of one byte value only, and with lengths whose
+/// two prefix bytes equal that value too (65535 = FF FF, 0 = 00 00) the run-length layer sees ONE run across
+/// all the inputs of the packet - up to 16 x 65537 bytes, far beyond what any single input can produce
+fn rt_runs_strategy() -> BoxedStrategy<RtCase> {
+    let len = prop_oneof![6 => Just(65535usize), 1 => Just(65534usize), 1 => Just(0xff00usize), 1 => Just(0x00ffusize), 1 => Just(0x0101usize), 1 => 0usize..70000];
+    let mask = prop_oneof![4 => Just(0xffu8), 2 => Just(0x00u8), 1 => Just(0x01u8), 1 => Just(0x80u8), 1 => any::<u8>()];
+    (len, mask, 1usize..=16, any::<u64>(), 0u8..4, proptest::collection::vec((any::<u8>(), any::<u16>(), any::<u8>()), 0..3))
+        .prop_map(|(n, m, count, seed, refmode, blemishes)| {
+            let n = n.min(65535);
+            let mut r = Rng(seed);
+            // reference: same length as the inputs (random / zero), shorter, or empty
+            let reference: Vec<u8> = match refmode {
+                0 => (0..n).map(|_| (r.next() >> 7) as u8).collect(),
+                1 => vec![0u8; n],
+                2 => (0..n / 2).map(|_| (r.next() >> 7) as u8).collect(),
+                _ => vec![],
+            };
+            let mut prev: Vec<u8> = reference.clone();
+            prev.resize(n, 0);
+            let mut inputs = Vec::new();
+            for _ in 0..count {
+                let cur: Vec<u8> = prev.iter().map(|b| b ^ m).collect();
+                inputs.push(cur.clone());
+                prev = cur;
+            }
+            // a few single-byte blemishes that cut the long run at arbitrary places
+            for (which, pos, val) in blemishes {
+                let i = which as usize % inputs.len();
+                if !inputs[i].is_empty() {
+                    let p = pos as usize % inputs[i].len();
+                    inputs[i][p] ^= val;
+                }
+            }
+            RtCase { reference, inputs }
         })
         .boxed()
 }
@@ -714,6 +756,14 @@ pub fn run(ctx: &Ctx) -> PropReport {
         "proptest: 1-3 inputs of length up to 65535 (the u16 length prefix's maximum; 65535 and 65534 weighted) with zero/0xFF/random/striped content against a reference of up to 300 bytes; same oracle",
         rt_big_strategy,
         ctx.tier.pick(300, 3000),
+        eval_rt,
+    ));
+    rep.part(|| run_random(
+        ctx,
+        "roundtrip_runs",
+        "proptest: 1..=16 inputs of one length (65535 weighted; 65534, 0xFF00, 0x00FF, 0x0101, random) in which every input is its predecessor XOR a constant byte (0xFF weighted; 0x00, 0x01, 0x80, random), the first one the (same-length random / zero / half-length / empty) reference XOR that byte, with 0..=2 single-byte blemishes: the delta layer is one long run of a single byte value across all inputs of the packet (up to 16 x 65537 bytes: run lengths that need 4-byte varints in the run-length layer); same oracle",
+        rt_runs_strategy,
+        ctx.tier.pick(400, 4000),
         eval_rt,
     ));
     let refs = ctx.tier.pick(5u64, 21u64);
